@@ -16,6 +16,7 @@ def run(ctx):
         rr.mc(ctx, rr.INST_C, "extprod")
         rr.mc(ctx, rr.INST_D, "extprod")
     plans = [(rr.INST_A, "A", "spqlios-fma", "optim", 1), (rr.INST_B, "B", "nayuki-portable", "optim", 1), (rr.INST_A, "A", "fftw", "debug", 4)]
+    after_k2 = [("spqlios-fma", "optim"), ("nayuki-portable", "optim")] if not thorough else [("spqlios-fma", "optim"), ("spqlios-avx", "optim"), ("nayuki-portable", "optim"), ("nayuki-avx", "optim"), ("fftw", "optim")]
     if thorough:
         plans = [(rr.INST_A, "A", be, "optim", 1) for be in ("spqlios-fma", "spqlios-avx", "nayuki-portable", "nayuki-avx", "fftw")] + \
                 [(rr.INST_B, "B", be, "optim", 1) for be in ("spqlios-fma", "fftw", "nayuki-avx")] + [(rr.INST_C, "C", "spqlios-avx", "optim", 2), (rr.INST_D, "D", "fftw", "debug", 1), (rr.INST_B, "B", "spqlios-fma", "debug", 2)]
@@ -27,5 +28,12 @@ def run(ctx):
             ctx.violation("external product / blind rotation on %s/%s deviates from the reduced model (instance %s): row %s" % (be, kind, tag, (bad["row"] or "")[:300]), detail=bad, files=[bad["rows_file"]])
         elif rows:
             ctx.sample(table.first_rows(rows, 1)[0])
+    # a k = 1 instance right after a k = 2 instance in the same process and thread (scratch state kept between calls of different shapes)
+    for be, kind in after_k2:
+        bad, rows = rr.replay(ctx, rr.INST_A, "A2", be, kind, ("rot", "boot"), ctx.seed, take=3, before=(rr.INST_B, "B2"))
+        if bad and "crash" in bad:
+            ctx.violation("%s (%s/%s, k=1 after k=2)" % (bad["crash"], be, kind), key="h_boot replay crash A-after-B %s %s" % (be, kind))
+        elif bad:
+            ctx.violation("blind rotation / bootstrapping at k = 1 after a k = 2 evaluation in the same thread deviates from the model on %s/%s: row %s" % (be, kind, (bad["row"] or "")[:300]), detail=bad, files=[bad["rows_file"]])
     ctx.assume("noiseless TGSW rows with model-chosen masks give exact-up-to-FFT-rounding equalities (256 units of 2^-32); the statistical clause for noisy rows is covered by the gate-output statistics of C02")
     ctx.assume("coefficient-domain and FFT-domain variants, and blind rotation whole vs one key element at a time, are validated against the same model, hence agree")
